@@ -382,11 +382,13 @@ def derefPositions : Nat → List ItOp → List Nat
   | p, .incr :: os => derefPositions (p + 1) os
   | p, .deref :: os => p :: derefPositions p os
 
-/-- the harness's pattern letters: d = `*it; ++it`, D = `*it; *it; ++it`, s = `++it` -/
+/-- the harness's pattern letters: d = `*it; ++it`, D = `*it; *it; ++it`, p = `*it++` (iterator_facade's postfix proxy of an input
+    iterator dereferences, then increments), s = `++it` -/
 def patternOps : List Char → List ItOp
   | [] => []
   | 'd' :: r => .deref :: .incr :: patternOps r
   | 'D' :: r => .deref :: .deref :: .incr :: patternOps r
+  | 'p' :: r => .deref :: .incr :: patternOps r
   | _ :: r => .incr :: patternOps r
 
 /-- pnm scanline_reader, binary rows: `read` takes `_scanline_length` bytes at the stream position, `skip_binary_row` seeks forward by it -/
